@@ -9,6 +9,7 @@ import XalanModel.Containers.DOMStringProofs
 import XalanModel.Containers.DOMStringCompareProofs
 import XalanModel.Containers.ObjCacheProofs
 import XalanModel.Containers.StringPoolProofs
+import XalanModel.Containers.StringCacheProofs
 import XalanModel.Containers.BitmapProofs
 /-!
 # C20 — Xalan's containers behave like their standard models
@@ -1342,6 +1343,115 @@ theorem pool_get_canonical (p : SPool) (h : SPool.Inv p) (cs : List Nat) (hcs : 
 theorem pool_new_clear_inv (n : Nat) (hn : 0 < n) (p : SPool) (h : SPool.Inv p) :
     SPool.Inv (SPool.new n) ∧ SPool.Inv p.clear ∧ p.clear.strings = [] :=
   ⟨SPool.new_inv n hn, (SPool.clear_inv p h).1, (SPool.clear_inv p h).2⟩
+
+
+/-- the pool as a set of length-carrying unit sequences with stable identity: the distinct non-empty keys in
+order of first request; the identity of a pooled string is its position -/
+def poolSpecStep (l : List (List Nat)) (cs : List Nat) : List (List Nat) × Option Nat :=
+  if cs = [] then (l, none) else if cs ∈ l then (l, some (l.idxOf cs)) else (l ++ [cs], some l.length)
+
+def poolSpecRun : List (List Nat) → List (List Nat) → List (List Nat) × List (Option Nat)
+  | [], l => (l, [])
+  | cs :: ks, l =>
+    let (l1, r) := poolSpecStep l cs
+    let (l2, rs) := poolSpecRun ks l1
+    (l2, r :: rs)
+
+def SPool.runGets : List (List Nat) → SPool → Option (SPool × List (Option Nat))
+  | [], p => some (p, [])
+  | cs :: ks, p => (SPool.get p cs).bind fun r => (SPool.runGets ks r.1).map fun q => (q.1, r.2 :: q.2)
+
+theorem pool_step_refines_set (p : SPool) (h : SPool.Inv p) (cs : List Nat) :
+    ∃ p' r, SPool.get p cs = some (p', r) ∧ SPool.Inv p' ∧ (p'.strings, r) = poolSpecStep p.strings cs ∧
+      p'.count = p'.strings.length := by
+  by_cases hcs : cs = []
+  · subst hcs
+    exact ⟨p, none, by simp [SPool.get], h, by simp [poolSpecStep], h.cnt⟩
+  · obtain ⟨p', id, e, inv', hs, hcase⟩ := SPool.get_spec p h cs hcs
+    refine ⟨p', some id, e, inv', ?_, inv'.cnt⟩
+    simp only [poolSpecStep, hcs, if_false]
+    rcases hcase with ⟨hmem, rfl⟩ | ⟨hnot, hstr, hid⟩
+    · simp only [hmem, if_true]
+      have hlt : List.idxOf cs p'.strings < p'.strings.length := List.idxOf_lt_length_iff.mpr hmem
+      have h1 : p'.strings[List.idxOf cs p'.strings]? = some cs := by
+        rw [List.getElem?_eq_getElem hlt, List.getElem_idxOf hlt]
+      have : List.idxOf cs p'.strings = id := (List.getElem?_inj hlt inv'.nodup).mp (by rw [h1, hs])
+      rw [this]
+    · simp only [hnot, if_false, hstr, hid]
+
+/-- **C20 (string pool).** For every history of `get` requests — keys are length-carrying unit sequences, U+0000
+inside or (after the repair) at the start included — the pool is the set of distinct non-empty keys: each `get`
+returns the pooled object equal to the key as a full sequence, equal keys return the same object, a new key
+gets a new object, and `size()` is the number of distinct keys. -/
+theorem pool_refines_set (ks : List (List Nat)) (p : SPool) (h : SPool.Inv p) :
+    ∃ p' rs, SPool.runGets ks p = some (p', rs) ∧ SPool.Inv p' ∧ (p'.strings, rs) = poolSpecRun ks p.strings ∧
+      p'.count = p'.strings.length := by
+  induction ks generalizing p with
+  | nil => exact ⟨p, [], rfl, h, rfl, h.cnt⟩
+  | cons cs ks ih =>
+    obtain ⟨p1, r, e1, i1, s1, _⟩ := pool_step_refines_set p h cs
+    obtain ⟨p2, rs, e2, i2, s2, c2⟩ := ih p1 i1
+    refine ⟨p2, r :: rs, by simp [SPool.runGets, e1, e2], i2, ?_, c2⟩
+    simp only [poolSpecRun, ← s1, ← s2]
+
+/-- keys that differ only behind a U+0000 are different strings; the **unrepaired** test for the empty key
+answered a key starting with U+0000 with the shared empty string -/
+theorem pool_embedded_nul_examples :
+    ((SPool.runGets [[97, 98], [97, 98, 0, 99], [97, 98, 0, 100], [97, 98, 0, 99], [97, 98]] (SPool.new 3)).map
+        fun r => (r.1.count, r.2)) = some (3, [some 0, some 1, some 2, some 1, some 0]) ∧
+    ((SPool.new 3).getAsWritten [0, 1, 2]).map (·.2) = some none ∧
+    ((SPool.new 3).get [0, 1, 2]).map (·.2) = some (some 0) := by
+  decide
+
+
+/-! ## XalanDOMStringCache -/
+
+inductive SCOp where
+  | get
+  | release (id : Nat)
+  | reset
+  | clear
+
+def SCache.stepOp (c : SCache) : SCOp → SCache
+  | .get => (c.get).1
+  | .release id => (c.release id).1
+  | .reset => c.reset
+  | .clear => c.clear
+
+/-- **C20 (string cache).** After every history of get / release (of anything: a string that is not busy is
+refused) / reset / clear, every string created since the last `clear` is in exactly one of the busy list, the
+available list and the strings handed back to the allocator, and no other string is in any of them — so a
+string is never handed out twice, never destroyed twice, and a release beyond the available-list bound
+destroys it exactly once. -/
+theorem cache_busy_available_partition (ops : List SCOp) (c : SCache) (h : SCache.Inv c) :
+    SCache.Inv (ops.foldl SCache.stepOp c) := by
+  induction ops generalizing c with
+  | nil => exact h
+  | cons op ops ih =>
+    apply ih
+    cases op with
+    | get => exact (SCache.get_inv c h).1
+    | release id => exact (SCache.release_inv c h id).1
+    | reset => exact (SCache.reset_inv c h).1
+    | clear => exact SCache.inv_empty c.maxSize
+
+/-- what the single operations deliver: `get` hands out a busy string; `release` succeeds exactly for busy
+strings and moves the string to the available list or (beyond the bound) to the destroyed ones; `reset` leaves
+nothing busy; a new cache satisfies the invariant -/
+theorem cache_operations (c : SCache) (h : SCache.Inv c) (id m : Nat) :
+    (c.get).2 ∈ (c.get).1.busy ∧
+    ((c.release id).2 = true ↔ id ∈ c.busy) ∧
+    (id ∈ c.busy → id ∉ (c.release id).1.busy ∧ (id ∈ (c.release id).1.available ∨ id ∈ (c.release id).1.destroyed)) ∧
+    c.reset.busy = [] ∧ SCache.Inv ({ maxSize := m } : SCache) :=
+  ⟨(SCache.get_inv c h).2, (SCache.release_inv c h id).2.1, (SCache.release_inv c h id).2.2, (SCache.reset_inv c h).2,
+   SCache.inv_empty m⟩
+
+/-- non-vacuity: bound 1; the fourth release finds two strings available (> 1) and destroys its string -/
+example :
+    let c := [SCOp.get, .get, .get, .get, .release 0, .release 1, .release 2, .release 3].foldl SCache.stepOp
+      ({ maxSize := 1 } : SCache)
+    (c.busy, c.available, c.destroyed) = ([], [0, 1], [2, 3]) := by
+  decide
 
 /-! ## XalanBitmap -/
 
